@@ -668,6 +668,67 @@ def translate_effects(repo):
     return text
 
 
+# ---------------------------------------------------------------------------------------------------
+# link.rs: `Links::insert` and `Links::remove` -- straight-line code over the hash map and Option<usize>
+# combinators, translated statement by statement to Gallina over the model's map primitives
+# (tbl_get = get(..).copied().unwrap_or_default(), tbl_set = insert, tbl_del = remove).
+LINK_STMTS = [
+    (r"let (\w+) = self\.registry\.get\(&(\w+)\)\.copied\(\)\.unwrap_or_default\(\);",
+     lambda m: ("let", m.group(1), "tbl_get t %s" % m.group(2))),
+    (r"let (\w+) = (\w+)\.checked_sub\((\w+)\)\.and_then\(NonZeroUsize::new\);",
+     lambda m: ("let", m.group(1), "and_then_nonzero (checked_sub %s %s)" % (m.group(2), m.group(3)))),
+    (r"let (\w+) = (\w+)\.checked_sub\((\w+)\);",
+     lambda m: ("let", m.group(1), "checked_sub %s %s" % (m.group(2), m.group(3)))),
+    (r"if let Some\((\w+)\) = (\w+) \{ self\.registry\.insert\((\w+), (\w+)\.get\(\)\); \} else \{ self\.registry\.remove\(&(\w+)\); \}",
+     lambda m: ("ret", None, "match %s with Some %s => tbl_set t %s %s | None => tbl_del t %s end"
+                % (m.group(2), "v_" + m.group(1), m.group(3), "v_" + m.group(4), m.group(5)))),
+    (r"\*self\.registry\.entry\((\w+)\)\.or_insert\(0\) \+= (\d+);",
+     lambda m: ("ret", None, "tbl_set t %s (tbl_get t %s + %s)" % (m.group(1), m.group(1), m.group(2)))),
+]
+
+
+def link_fn(body):
+    txt = _norm(body)
+    lets, ret = [], None
+    while txt:
+        for pat, f in LINK_STMTS:
+            m = re.match(pat, txt)
+            if m:
+                kind, v, e = f(m)
+                if ret is not None:
+                    raise Unsupported("code after the final map update in Links")
+                if kind == "let":
+                    lets.append((v, e))
+                else:
+                    ret = e
+                txt = txt[m.end():].strip()
+                break
+        else:
+            raise Unsupported("link.rs statement outside the subset: %r" % txt[:80])
+    if ret is None:
+        raise Unsupported("Links function without a map update")
+    out = ""
+    for v, e in lets:
+        out += "  let %s := %s in\n" % (v, e)
+    return out + "  " + ret
+
+
+def translate_links(repo):
+    path = repo + "/src/link.rs"
+    src = re.sub(r"//[^\n]*", "", open(path).read())
+    m = re.search(r"impl<T> Links<T> \{", src)
+    if not m:
+        raise Unsupported("impl Links<T> not found")
+    impl = src[m.end():]
+    ins = link_fn(_fn_body(impl, r"pub fn insert\(&mut self, other: Link<T>\) \{"))
+    rem = link_fn(_fn_body(impl, r"pub fn remove\(&mut self, other: Link<T>, strong: usize\) \{"))
+    return ("(* GENERATED by tools/rs2v.py from %s (impl Links<T>) -- do not edit. *)\n"
+            "From Coq Require Import NArith List. Import ListNotations.\nFrom CR Require Import Base.\n"
+            "From Gen Require Import LinksLang.\nLocal Open Scope N_scope.\n\n"
+            "Definition g_links_insert (t : table) (other : link) : table :=\n%s.\n\n"
+            "Definition g_links_remove (t : table) (other : link) (strong : N) : table :=\n%s.\n" % (path, ins, rem))
+
+
 if __name__ == "__main__":
     # rs2v.py <repo> <outdir> <counters|adopt>   (no outdir: print)
     import os
@@ -683,8 +744,10 @@ if __name__ == "__main__":
             text, name = translate_cycle(repo), "CycleGen.v"
         elif part == "drop":
             text, name = translate_drop(repo), "DropGen.v"
-        else:
+        elif part == "effects":
             text, name = translate_effects(repo), "EffectsGen.v"
+        else:
+            text, name = translate_links(repo), "LinksGen.v"
     except (Unsupported, ValueError, IndexError) as e:
         print("rs2v (%s): outside the translated subset: %s" % (part, e), file=sys.stderr)
         sys.exit(2)
